@@ -18,6 +18,10 @@
  *                                          -> OK exists=<0|1> leak=<0|1>
  *   read <mode> <script> <path>            C04: open + API call sequence on a (mutated) file
  *                                          -> OK/ERR/FAULT ...
+ *   longerr <len> <path>                   C04: error records built from long caller-supplied text: unopenable paths
+ *                                          of <len> characters (fread, mmap) and a projection by a column name of
+ *                                          <len> characters on the valid file <path>: every failure must carry a
+ *                                          non-OK code and a message terminated inside its array
  *   probe <mode> <path>                    C04 tie: the decisions PageBoundsModel makes, observed one by one:
  *                                          metadata dump, get_column codes, for every chunk the page-header
  *                                          parser's verdict on the header window(s) and the status of the first
@@ -1036,6 +1040,66 @@ static void probe_child(void* vctx, FILE* out) {
     free(keep); free(data);
 }
 
+
+/* ------------------------------------------------------------------------------------------ C04: long caller-supplied text */
+
+typedef struct { int len; const char* path; } longerr_ctx;
+
+static void longerr_child(void* vctx, FILE* out) {
+    longerr_ctx* cx = (longerr_ctx*)vctx;
+    int len = cx->len < 8 ? 8 : cx->len;
+    int bad = 0, calls = 0, codes[8], nc = 0;
+    /* a path of exactly len characters that cannot be opened: components of at most 200 characters */
+    char* path = malloc((size_t)len + 1);
+    memcpy(path, "/nonexis/", 9 < len ? 9 : len);                 /* inside a directory that does not exist */
+    for (int i = 9; i < len; i++) path[i] = ((i - 9) % 201 == 200) ? '/' : (char)('a' + i % 26);
+    path[len] = 0;
+    for (int mode = 0; mode < 2; mode++) {
+        carquet_reader_options_t o; carquet_reader_options_init(&o);
+        o.use_mmap = mode == 1;
+        carquet_error_t e = CARQUET_ERROR_INIT;
+        carquet_reader_t* r = carquet_reader_open(path, &o, &e);
+        calls++;
+        if (r) { bad++; carquet_reader_close(r); } else { if (!err_ok(&e)) bad++; codes[nc++] = (int)e.code; }
+    }
+    {   /* the writer's create reports the path too */
+        carquet_error_t e = CARQUET_ERROR_INIT;
+        carquet_schema_t* s = carquet_schema_create(&e);
+        if (s && carquet_schema_add_column(s, "c", CARQUET_PHYSICAL_INT32, NULL, CARQUET_REPETITION_REQUIRED, 0) == CARQUET_OK) {
+            carquet_error_t we = CARQUET_ERROR_INIT;
+            carquet_writer_t* w = carquet_writer_create(path, s, NULL, &we);
+            calls++;
+            if (w) { bad++; carquet_writer_abort(w); } else { if (!err_ok(&we)) bad++; codes[nc++] = (int)we.code; }
+        }
+        carquet_schema_free(s);
+    }
+    free(path);
+    /* projection by a name of len characters, on a valid file, through all three open paths */
+    size_t n = 0; uint8_t* data = read_file(cx->path, &n);
+    char* name = malloc((size_t)len + 1);
+    for (int i = 0; i < len; i++) name[i] = (char)('A' + i % 26);
+    name[len] = 0;
+    for (int mode = 0; data && mode < 3; mode++) {
+        carquet_error_t e = CARQUET_ERROR_INIT;
+        uint8_t* keep;
+        carquet_reader_t* r = open_mode(mode, cx->path, data, n, &keep, &e);
+        if (r) {
+            carquet_batch_reader_config_t cfg; carquet_batch_reader_config_init(&cfg);
+            const char* names[1] = {name};
+            cfg.column_names = names; cfg.num_column_names = 1; cfg.num_threads = 1;
+            carquet_error_t be = CARQUET_ERROR_INIT;
+            carquet_batch_reader_t* br = carquet_batch_reader_create(r, &cfg, &be);
+            calls++;
+            if (br) { bad++; carquet_batch_reader_free(br); } else { if (!err_ok(&be)) bad++; if (nc < 8) codes[nc++] = (int)be.code; }
+            carquet_reader_close(r);
+        }
+        free(keep);
+    }
+    free(name); free(data);
+    fprintf(out, "%s len=%d calls=%d bad=%d codes=", bad ? "BADERR" : "OK", len, calls, bad);
+    for (int i = 0; i < nc; i++) fprintf(out, "%s%d", i ? "," : "", codes[i]);
+}
+
 /* CPU budget of a reader case, proportional to the input: 2 s + 1 s per 256 KiB (ASan build; the call
  * scripts are bounded walks).  A 1 KiB file that needs more than 2 CPU seconds is a violation (hang-cpu). */
 static int cpu_budget(const char* path) {
@@ -1075,6 +1139,10 @@ int main(void) {
         } else if (!strcmp(op, "read") && h_ntok == 4) {
             read_ctx cx = {atoi(h_tok[1]), h_tok[2], h_tok[3]};
             run_forked(read_child, &cx, cpu_budget(h_tok[3]), 20, res, sizeof(res));
+            puts(res);
+        } else if (!strcmp(op, "longerr") && h_ntok == 3) {
+            longerr_ctx cx = {atoi(h_tok[1]), h_tok[2]};
+            run_forked(longerr_child, &cx, 4, 20, res, sizeof(res));
             puts(res);
         } else if (!strcmp(op, "probe") && h_ntok == 3) {
             probe_ctx cx = {atoi(h_tok[1]), h_tok[2]};
